@@ -32,8 +32,15 @@ impl<'a> G<'a> {
     fn bump(&mut self, k: &'static str) { *self.cnt.entry(k).or_insert(0) += 1; }
     fn number(&mut self) { let t = self.rng.pick_str(&["0", "1", "42", "4'b1010", "8'hFF", "'0", "'1", "3'sd2", "1.5", "2e3", "16'hab_cd", "8 'o17", "'x"]); self.s.text.push_str(t); self.lay(); }
     fn expr(&mut self, vars: &[String], d: usize) {
-        let r = self.rng.below(if d > 2 { 4 } else { 11 });
+        let r = self.rng.below(if d > 2 { 4 } else { 12 });
         match r {
+            // chained method calls on a variable: v.m_a(e).m_b().m_c()
+            11 if !vars.is_empty() => {
+                let v = self.rng.pick(vars).clone(); self.idn(&v);
+                let k = self.rng.range(1, 4);
+                for j in 0..k { self.sym("."); self.idn(["m_a", "m_b", "m_c", "m_d"][j % 4]); self.sym("("); if j == 0 && self.rng.chance(1, 2) { self.expr(vars, d + 2); } self.sym(")"); }
+                self.lay();
+            }
             0 | 1 => self.number(),
             2 | 3 => { if vars.is_empty() { self.number() } else { let v = self.rng.pick(vars).clone(); self.id(&v); } }
             4 => { self.expr(vars, d + 1); let op = self.rng.pick_str(&["+", "-", "*", "/", "&", "|", "^", "==", "!=", "<", "<=", ">>", "<<", "&&", "||", "%", "**", ">>>", "===", "~^"]); self.symt(op); self.expr(vars, d + 1); }
